@@ -130,42 +130,56 @@ class Runner:
         return self.pool.map(_exec_entry, [(self.check, t) for t in traces])
 
     # ------------------------------------------------------------------ known-finding attribution
-    def attribute(self, trace, res):
-        """split res['violations'] into (known: list of (kid, v), new: list of v)"""
+    def _kf_runs(self, trace, res):
+        """(kid, kind, trace') for every ablation / explanation execution that attributing `res` may need"""
+        out = []
+        for kid, m in self.matchers.items():
+            if not any(self._pred(m, trace, v) for v in res['violations']):
+                continue
+            if m.ablate is not None:
+                out.append((kid, 'ab', m.ablate(copy.deepcopy(trace))))
+            if m.explain is not None:
+                out.append((kid, 'ex', m.explain(copy.deepcopy(trace))))
+        return out
+
+    def attribute(self, trace, res, pre=None):
+        """split res['violations'] into (known: list of (kid, v), new: list of v).
+        pre: optional {(kid, kind): (status, result)} of ablation ('ab') / explanation ('ex') runs executed beforehand
+        (the search executes them in parallel); missing ones are executed here."""
         known, new = [], []
-        ablated_cache = {}
+        cache = {}
+
+        def outcome(kid, kind, make):
+            if (kid, kind) not in cache:
+                if pre is not None and (kid, kind) in pre:
+                    st, r = pre[(kid, kind)]
+                else:
+                    t = make()
+                    st, r = self.exec_trace(t) if t is not None else ('none', None)
+                if st != 'ok':
+                    cache[(kid, kind)] = None
+                elif kind == 'ab':
+                    cache[(kid, kind)] = {sig(x) for x in r['violations']}
+                else:
+                    cache[(kid, kind)] = {x.get('law') for x in r['violations']}
+            return cache[(kid, kind)]
         for v in res['violations']:
             hit = None
             for kid, m in self.matchers.items():
-                try:
-                    ok = m.predicate(trace, v)
-                except Exception:
-                    ok = False
-                if not ok:
+                if not self._pred(m, trace, v):
                     continue
                 if m.ablate is None:
                     hit = kid
                     break
-                if kid not in ablated_cache:
-                    at = m.ablate(copy.deepcopy(trace))
-                    if at is None:
-                        ablated_cache[kid] = None
-                    else:
-                        st, ar = self.exec_trace(at)
-                        ablated_cache[kid] = {sig(x) for x in ar['violations']} if st == 'ok' else None
-                sigs = ablated_cache[kid]
-                if sigs is not None and sig(v) not in sigs:
-                    if m.explain is not None:
-                        ek = ('explain', kid)
-                        if ek not in ablated_cache:
-                            et = m.explain(copy.deepcopy(trace))
-                            st, er = self.exec_trace(et) if et is not None else ('none', None)
-                            ablated_cache[ek] = {x.get('law') for x in er['violations']} if st == 'ok' else None
-                        laws = ablated_cache[ek]
-                        if laws is None or v.get('law') in laws:
-                            continue      # the defect model does not explain what was observed: not this finding
-                    hit = kid
-                    break
+                sigs = outcome(kid, 'ab', lambda: m.ablate(copy.deepcopy(trace)))
+                if sigs is None or sig(v) in sigs:
+                    continue          # the violation survives the removal of the trigger: not this finding
+                if m.explain is not None:
+                    laws = outcome(kid, 'ex', lambda: m.explain(copy.deepcopy(trace)))
+                    if laws is None or v.get('law') in laws:
+                        continue      # the defect model does not explain what was observed: not this finding
+                hit = kid
+                break
             if hit:
                 known.append((hit, v))
             else:
@@ -258,8 +272,18 @@ class Runner:
         # attribution happens after the sweep (needs the pool for ablation runs), in run-index order
         pending_attr.sort(key=lambda x: x[0])
         known_seen = collections.OrderedDict()
-        for tid, tr, payload in pending_attr:
-            known, new = self.attribute(tr, payload)
+        # ablation / explanation executions for all violating runs, in parallel
+        jobs = []
+        for n_, (tid, tr, payload) in enumerate(pending_attr):
+            for kid, kind, t in self._kf_runs(tr, payload):
+                if t is not None:
+                    jobs.append((n_, kid, kind, t))
+        pre_all = collections.defaultdict(dict)
+        if jobs:
+            for (n_, kid, kind, t), out in zip(jobs, self.exec_many([j[3] for j in jobs])):
+                pre_all[n_][(kid, kind)] = out
+        for n_, (tid, tr, payload) in enumerate(pending_attr):
+            known, new = self.attribute(tr, payload, pre=pre_all.get(n_, {}))
             for kid, v in known:
                 known_seen.setdefault(kid, [0, v, tr['seed']])[0] += 1
             if new and first_new is None:
